@@ -3,8 +3,10 @@
 TLC enumerates (class, dimension, length unit 2^e, wave number index) and computes the powers of two by
 which each spectral function must differ from its unit-1 value at the same dimensionless wave number,
 and the algebraic identities between the functions.  Every case is evaluated on real model objects.
-Only relations between outputs of the implementation are compared (exact powers of two; no numerical
-integration): the Fourier-pair clause itself and the normalisation of the pdf are NOT covered.
+Relations between outputs of the implementation are compared (exact powers of two).  The Fourier-pair clause itself is
+decided pointwise in unit 1 by adaptive quadrature of the implementation's own correlation (`forward`), only where the
+quadrature certifies its error and with a tolerance above the accuracy of the library's numerical transform; the
+normalisation of the pdf of classes without a cdf and classes with an oscillating correlation (JBessel) are NOT covered.
 """
 import os
 import random
@@ -98,6 +100,53 @@ def close(a, b, scale, tol=1e-12):
     return abs(a - b) <= tol * max(scale, 1e-300)
 
 
+OSCILLATING = ("JBessel",)      # correlation oscillates with a slowly decaying envelope: no quadrature certifies its transform
+FOURIER_TOL = {"closed-form": 1e-2, "numeric-transform": 0.3}     # of the peak density over the wave number lattice
+
+
+def forward(m, d, k):
+    """(value, error estimate) of (2 pi)^-d int cor(|r|) exp(-i k.r) d^d r by adaptive quadrature of the implementation's own
+    correlation (radial kernels: cos(kr); r J0(kr); r sin(kr)/k), or None where no certified quadrature applies."""
+    from scipy.integrate import quad
+    from scipy.special import j0
+
+    def cor(r):
+        return float(m.correlation(np.array([r]))[0])
+
+    ls, lr = float(m.len_scale), float(m.len_rescaled)
+    rmax = None
+    for t in (1.0, 2.0, 4.0):                                   # compact support
+        if cor(t * ls * 1.0000001) == 0.0 and cor(8.0 * ls) == 0.0 and cor(64.0 * ls) == 0.0:
+            rmax = t * ls * 1.0000001
+            break
+    if rmax is None:
+        for t in (8, 16, 32, 64):                               # negligible beyond
+            if abs(cor(t * lr)) < 1e-15 and abs(cor(2 * t * lr)) < 1e-15:
+                rmax = t * lr
+                break
+    if d == 1:
+        if rmax is not None:
+            v, e = quad(lambda r: cor(r) * np.cos(k * r), 0, rmax, limit=400)
+        elif k > 0:
+            v, e = quad(cor, 0, np.inf, weight="cos", wvar=k, limit=400)
+        else:
+            v, e = quad(cor, 0, np.inf, limit=400)
+        return v / np.pi, e / np.pi
+    if d == 2:
+        if rmax is None:
+            return None
+        v, e = quad(lambda r: cor(r) * r * j0(k * r), 0, rmax, limit=400)
+        return v / (2 * np.pi), e / (2 * np.pi)
+    if k == 0:
+        v, e = quad(lambda r: cor(r) * r * r, 0, np.inf if rmax is None else rmax, limit=400)
+        return v / (2 * np.pi ** 2), e / (2 * np.pi ** 2)
+    if rmax is not None:
+        v, e = quad(lambda r: cor(r) * r * np.sin(k * r), 0, rmax, limit=400)
+    else:
+        v, e = quad(lambda r: cor(r) * r, 0, np.inf, weight="sin", wvar=k, limit=400)
+    return v / (2 * np.pi ** 2 * k), e / (2 * np.pi ** 2 * k)
+
+
 _BASE = {}
 
 
@@ -160,6 +209,19 @@ def run_case(gs, c, exp, variant):
     want = {"zero": 0.0, "twice-density": 2.0 * dens}.get(str(exp["pdfAtOrigin"]), float(surface(d, ka)[0]) * dens)
     if not close(pdf, want, pscale * 2.0 ** int(exp["radPdfPow"])):
         out.append(("rad-pdf:surface-factor:%s" % cls, "%s: spectral_rad_pdf = %r, surface factor x density = %r" % (where, pdf, want)))
+    # the Fourier pair itself (unit 1, directly built): density(k) = (2 pi)^-d int cor(r) exp(-ikr) d^d r
+    if exp.get("fourierAt") and cls not in OSCILLATING:
+        assert int(exp["twoPiPow"]) == -d and str(exp["kernel"]) == {1: "cos", 2: "bessel-j0", 3: "sinc"}[d]
+        try:
+            with warnings.catch_warnings():
+                warnings.simplefilter("ignore")
+                fw = forward(m, d, k)
+        except Exception:  # noqa: BLE001 - quadrature failure: no verdict
+            fw = None
+        if fw is not None and np.isfinite(fw[0]) and fw[1] <= 1e-6 * dscale:
+            if not abs(fw[0] - dens) <= FOURIER_TOL[tag] * dscale:
+                out.append(("fourier-pair:%s:%s:dim=%d" % (tag, cls, d), "%s: spectral_density = %r, the Fourier transform of the model's own correlation "
+                            "(adaptive quadrature, certified error %.1e) is %r" % (where, dens, fw[1], fw[0])))
     if exp.get("tplParts") and variant == "lower-truncation" and not numeric:
         hurst = float(m.hurst)
         low, up = float(m.len_low), float(m.len_low + m.len_scale)
@@ -215,8 +277,9 @@ def run(pid, tier, seed, replay=None):
     thorough = tier == "thorough"
     rep.assumptions += [
         "PARTIAL: only relations between outputs of the implementation are decided (dimensional analysis under a change of the length unit by exact powers of two, "
-        "spectrum = var x density, radial pdf = surface factor x density incl. the origin, cdf range / slope = pdf / limit 1, ppf inverts cdf); that the density is the Fourier transform of "
-        "the correlation and that the pdf integrates to one are numerical-analysis clauses this technique does not decide",
+        "spectrum = var x density, radial pdf = surface factor x density incl. the origin, cdf range / slope = pdf / limit 1, ppf inverts cdf); the Fourier-pair clause is decided pointwise "
+        "in unit 1 against a certified quadrature of the implementation's own correlation with tolerance %s of the peak density (JBessel excluded: oscillating correlation); that the pdf integrates to one "
+        "is decided only through cdf -> 1 where a cdf is offered" % FOURIER_TOL,
         "unit-1 reference: the same function of the same class at len_scale 2, var 2; wave numbers kappa/len with kappa in %s" % KAPPA,
     ]
     if replay:
@@ -225,7 +288,7 @@ def run(pid, tier, seed, replay=None):
         rp = json.load(open(replay))["replay"]
         c = rp["case"]
         print(rp, "->", run_case(gs, c, {"densityPow": c["e"] * c["d"], "radPdfPow": c["e"], "pdfAtOrigin": "zero" if (c["j"] == 0 and c["d"] > 1) else (
-            "twice-density" if c["j"] == 0 else "surface-x-density"), "cdfAtOrigin": "zero" if c["j"] == 0 else "in", "cdfSlope": "rad-pdf" if c["j"] else "no", "tplParts": c["cls"] in TPL, "checkCdf": True, "checkPpf": True}, rp["variant"]))
+            "twice-density" if c["j"] == 0 else "surface-x-density"), "cdfAtOrigin": "zero" if c["j"] == 0 else "in", "cdfSlope": "rad-pdf" if c["j"] else "no", "tplParts": c["cls"] in TPL, "fourierAt": c["e"] == 0 and c.get("route", "direct") == "direct", "twoPiPow": -c["d"], "kernel": {1: "cos", 2: "bessel-j0", 3: "sinc"}[c["d"]], "checkCdf": True, "checkPpf": True}, rp["variant"]))
         return 0
     import gstools as gs
 
